@@ -8,9 +8,9 @@
    Only statements here; the proofs are in coq/proofs/C18_*.v. *)
 From Coq Require Import ZArith List Bool Arith.
 Import ListNotations.
-Require Import SC3.model.OscMatch SC3.model.OscBundleParse SC3.model.Dispatch SC3.model.Registry.
+Require Import SC3.model.OscMatch SC3.model.OscBundleParse SC3.model.Dispatch SC3.model.DispatchExc SC3.model.Registry.
 Require Import SC3.proofs.C18_match SC3.proofs.C18_render SC3.proofs.C18_text SC3.proofs.C18_illformed SC3.proofs.C18_parse
-  SC3.proofs.C18_dispatch SC3.proofs.C18_compose SC3.proofs.C18_registry.
+  SC3.proofs.C18_dispatch SC3.proofs.C18_compose SC3.proofs.C18_exc SC3.proofs.C18_registry.
 Open Scope Z_scope.
 
 (* ======================= (a) the matcher ======================================================== *)
@@ -261,6 +261,42 @@ Proof.
   apply (render_pat_text [OLit 47; OClass false [(97, 97); (98, 98)]; OStar]). vm_compute. reflexivity.
 Qed.
 
+(* registration order, as the code keeps it: enable() of a responder that is not enabled registers it
+   LAST (so disable + enable moves it to the end); enable() of an enabled one changes nothing;
+   disable()/free() take it out and leave the others in order; replacing the function (func setter,
+   one_shot) keeps its place in the dispatcher's table and in the registration order *)
+Theorem registration_order_rules :
+  (forall st id r, nth_error (resps st) id = Some r -> r_enabled r = false -> cmdp (enable st id) = cmdp st ++ [id])
+  /\ (forall st id r, nth_error (resps st) id = Some r -> r_enabled r = true -> enable st id = st)
+  /\ (forall st id r, nth_error (resps st) id = Some r -> r_enabled r = true ->
+        cmdp (disable st id) = filter (fun j => negb (Nat.eqb j id)) (cmdp st))
+  /\ (forall st id f, cmdp (set_func st id f) = cmdp st
+        /\ forall kind key, ids_at (tbl (set_func st id f) kind) key = ids_at (tbl st kind) key).
+Proof.
+  split; [exact enable_goes_last | split; [exact enable_enabled_noop | split; [exact disable_keeps_others | exact set_func_keeps_place]]].
+Qed.
+Example reenable_goes_last :
+  cmdp (final [OpCreate [47;97] false None None None 0%nat; OpCreate [47;97] false None None None 1%nat;
+               OpDisable 0%nat; OpEnable 0%nat; OpSetFunc 1%nat 7%nat; OpOneShot 1%nat]) = [1; 0]%nat.
+Proof. vm_compute. reflexivity. Qed.
+
+(* callbacks that raise (model/DispatchExc.v: the exception ends the clock task of THAT message, the
+   rest of its responders are not invoked, state changes made before the raise stay, the next
+   message is handled normally).  The property requires nothing of the responders skipped by a
+   raising callback; it requires that later messages are still delivered.  With no raising callback
+   that model takes exactly the steps of model/Dispatch.v: *)
+Theorem raising_model_agrees : forall st o, calm st -> step_x (fun _ => false) st o = step st o.
+Proof. exact step_x_calm. Qed.
+Example raising_example :   (* responders 0, 1 (one-shot, raises), 2 on "/a": 0 and 1 run, 2 is skipped; next message: 0 and 2 *)
+  let m := {| m_addr := [47;97]; m_args := [] |} in
+  let h := [OpCreate [47;97] false None None None 0%nat; OpCreate [47;97] false None None None 1%nat; OpOneShot 1%nat;
+            OpCreate [47;97] false None None None 2%nat] in
+  let st := final h in
+  let r1 := step_x (fun tag => Nat.eqb tag 1) st (OpIncoming m TNow (1, 2) 3) in
+  map inv_key (snd r1) = [(0, 0); (1, 1)]%nat
+  /\ map inv_key (snd (step_x (fun tag => Nat.eqb tag 1) (fst r1) (OpIncoming m TNow (1, 2) 3))) = [(0, 0); (2, 2)]%nat.
+Proof. split; vm_compute; reflexivity. Qed.
+
 (* responders 0 ("/a"), 1 ("/b"), 2 ("/a"), all matching; the message "/?" invokes 0, 2, 1 *)
 Theorem matching_global_order_refuted :
   let h := [OpCreate [47;97] true None None None 0%nat; OpCreate [47;98] true None None None 1%nat;
@@ -365,8 +401,7 @@ Theorem registry_runs_current_in_order :
         (forall s', s' <> s -> forall r, sv_get s' t = Some r -> ~ In a (reg_keys r)) ->
         ~ In a (map fst (sv_run n d (sv_remove s a t))))
   (* NotificationCenter: notify calls the listeners registered for (object, message), in registration order *)
-  /\ (forall o m l a t, nc_notify o m (nc_register o m l a t)
-                        = reg_set l a (match nc_get (o, m) t with Some r => r | None => [] end)).
+  /\ (forall o m l a t, nc_notify o m (nc_register o m l a t) = reg_set l a (odflt [] (nc_get o m t))).
 Proof.
   split; [exact sa_run_all|].
   split; [intros removes r H; destruct (sa_run_from_sound removes (reg_keys r) r H) as (H1 & H2 & _); split; assumption|].
@@ -375,11 +410,7 @@ Proof.
   split; [exact rstep_nodup|].
   split; [exact sv_remove_spec|].
   split; [exact sv_removed_not_run|].
-  intros o m l a t. unfold nc_notify, nc_register.
-  assert (E0 : okey_eqb (o, m) (o, m) = true) by (unfold okey_eqb; simpl; rewrite !Nat.eqb_refl; reflexivity).
-  induction t as [| [k r] t IH]; cbn [nc_put nc_get].
-  - rewrite E0. reflexivity.
-  - destruct (okey_eqb (o, m) k) eqn:E; cbn [nc_get]; rewrite E; [reflexivity | exact IH].
+  exact nc_notify_register.
 Qed.
 
 (* F5, the tree as found: ServerAction.remove looks the action up and discards the result *)
@@ -399,6 +430,8 @@ Print Assumptions osc10_pattern_text_correct.
 Print Assumptions illformed_pattern_is_re_error.
 Print Assumptions incoming_message_fires_exactly.
 Print Assumptions responder_life_cycle.
+Print Assumptions registration_order_rules.
+Print Assumptions raising_model_agrees.
 Print Assumptions parse_total.
 Print Assumptions dispatch_exact.
 Print Assumptions dispatch_matching_exactly_once.
